@@ -1,9 +1,11 @@
 import json,sys
 pid=sys.argv[1]
+focus=int(sys.argv[2]) if len(sys.argv)>2 else None
+suffix=sys.argv[3] if len(sys.argv)>3 else ''
 p=[json.loads(l) for l in open('/verif/properties.jsonl') if json.loads(l)['id']==pid][0]
 print(f"""You are testing a verification effort for the Python package `wikitextprocessor` (tatuylonen/wikitextprocessor: wikitext parser, template/parser-function expander, Scribunto Lua sandbox, SQLite page store).
 
-You have your own scratch git worktree of the repository at /tmp/seed_{pid} (work ONLY there; never touch /repo or /verif, and do not read anything under /verif). Run Python as: cd /tmp/seed_{pid} && PYTHONPATH=/tmp/seed_{pid}/src /venv/bin/python ...  The existing test suite runs with: cd /tmp/seed_{pid} && PYTHONPATH=/tmp/seed_{pid}/src /venv/bin/python -m pytest -q -p no:cacheprovider -x -q tests/<file> (the full suite takes several minutes; a few tests need network and fail regardless - ignore those: test_process_dump and anything that fails identically without your change). There is no network. Note: the Scribunto 'ustring' Lua submodule is absent offline, so #invoke only works if you first store a stub page: ctx.add_page("Module:ustring:ustring", 828, "local u = {{}} for k,v in pairs(string) do u[k]=v end u.codepoint=string.byte u.toNFC=function(s) return s end u.toNFD=function(s) return s end u.isutf8=function(s) return true end return u", model="Scribunto").
+You have your own scratch git worktree of the repository at /tmp/seed_{pid}{suffix} (work ONLY there; never touch /repo or /verif, and do not read anything under /verif). Run Python as: cd /tmp/seed_{pid}{suffix} && PYTHONPATH=/tmp/seed_{pid}{suffix}/src /venv/bin/python ...  The existing test suite runs with: cd /tmp/seed_{pid}{suffix} && PYTHONPATH=/tmp/seed_{pid}{suffix}/src /venv/bin/python -m pytest -q -p no:cacheprovider -x -q tests/<file> (the full suite takes several minutes; a few tests need network and fail regardless - ignore those: test_process_dump and anything that fails identically without your change). There is no network. Note: the Scribunto 'ustring' Lua submodule is absent offline, so #invoke only works if you first store a stub page: ctx.add_page("Module:ustring:ustring", 828, "local u = {{}} for k,v in pairs(string) do u[k]=v end u.codepoint=string.byte u.toNFC=function(s) return s end u.toNFD=function(s) return s end u.isutf8=function(s) return true end return u", model="Scribunto").
 
 Here is a semantic property the code is supposed to satisfy:
 
@@ -13,9 +15,9 @@ STATEMENT: {p['statement']}
 QUANTIFIER: {p['quantifier']['text']}
 CODE ANCHORS: {json.dumps(p['anchors']['mechanism'])}
 
-TASK: produce ONE realistic change to the package source (under src/wikitextprocessor/) - the kind of plausible bug a refactor, optimisation or feature tweak would introduce - that BREAKS this property while (a) the package still imports and (b) the existing test suite still passes exactly as before. The breakage must need something specific to manifest: a multi-step sequence of operations, an unusual-but-legal input, a particular option combination, or two cooperating sites that each look fine alone. It must NOT be something ordinary use exposes at once, and not a blatant sabotage (no 'if title == "X": return wrong').
+{('FOCUS: make your change in or around the mechanism the anchors call ' + repr(p['anchors']['mechanism'][focus]['name']) + ' (other mechanisms of the property are covered by other testers).' + chr(10) + chr(10)) if focus is not None else ''}TASK: produce ONE realistic change to the package source (under src/wikitextprocessor/) - the kind of plausible bug a refactor, optimisation or feature tweak would introduce - that BREAKS this property while (a) the package still imports and (b) the existing test suite still passes exactly as before. The breakage must need something specific to manifest: a multi-step sequence of operations, an unusual-but-legal input, a particular option combination, or two cooperating sites that each look fine alone. It must NOT be something ordinary use exposes at once, and not a blatant sabotage (no 'if title == "X": return wrong').
 
-Deliver, in /tmp/seed_{pid}/_seed/ :
+Deliver, in /tmp/seed_{pid}{suffix}/_seed/ :
  1. patch.diff   - `git diff` of your change (source files only), applicable with `git apply` at the worktree's HEAD
  2. demo.py      - a small standalone program (run as `PYTHONPATH=<repo>/src /venv/bin/python demo.py`) that exits 0 on the ORIGINAL code and exits 1 (printing what went wrong) with your change applied. It must take the repo src path from PYTHONPATH only (no hard-coded /tmp/seed path inside imports).
  3. meta.json    - {{"property": "{pid}", "summary": "...what was changed...", "needs": "...what it takes to manifest...", "tests_run": "...which test files you ran and the result..."}}
